@@ -65,8 +65,9 @@ def judge_fetches(R, ds, case, coords, ids, impl_outs, model_reps, payload_of, t
 def stream_datasets(R, n):
     rng = R.rng
     todo = []
-    for i in range(n):
-        ds = L.gen_dataset(rng, i)
+    n_big = 0 if getattr(L.gen_dataset, "__name__", "") == "<lambda>" else (3 if R.tier == "quick" else 9)
+    for i in range(n + n_big):
+        ds = L.gen_dataset(rng, i) if i < n else L.gen_bigpayload_dataset(rng, i - n)
         orders = ["sorted", "random"] if rng.random() < 0.5 else ["reversed", "random"]
         if rng.random() < 0.3:
             orders.append("random")
@@ -94,6 +95,7 @@ def stream_datasets(R, n):
     fmeta = []
     for i, ((ds, variants), row) in enumerate(zip(todo, writes)):
         case = {k: ds[k] for k in ("grid", "cs", "sizes", "m", "s", "p", "ie", "de", "subset")}
+        case["omit"] = ds.get("omit", [])
         case["sel"] = ds["sel"]
         case["payloads"] = ds["payloads"]
         R.case(case, nontrivial=L.nontrivial(ds))
@@ -586,6 +588,7 @@ def _replay_once(R, payload):
         def unb(v):
             return bytes.fromhex(v[1:]) if isinstance(v, str) else bytes(v)
         ds = {k: case[k] for k in ("grid", "cs", "sizes", "m", "s", "p", "ie", "de")}
+        ds["omit"] = case.get("omit", [])
         ds["subset"] = case.get("subset", "replay")
         ds["sel"] = case["sel"]
         ds["payloads"] = [unb(x) for x in case["payloads"]]
